@@ -156,7 +156,7 @@ class TwinMonitor(Monitor):
 
 
 def make_monitors():
-    return [driver.Observer(), TwinMonitor()]
+    return [driver.Observer(), driver.Interleaver(), TwinMonitor()]
 
 
 SUBSET_CURSOR = [0]
